@@ -504,6 +504,12 @@ func (e *Engine) newBig(t *Term) Value {
 // returns that bit-vector sign/zero-extended to 64 bits, so that small big.Int values stay in bit-vector arithmetic
 // (mixing Int and BV makes the solver slow or undecided).
 func (e *Engine) asSignedBV(x *Term) (*Term, bool) {
+	if x.op == OIntNeg {
+		// the negation of a non-negative value with fewer than 64 magnitude bits cannot overflow
+		if x.args[0].op == OBv2Nat && x.args[0].args[0].sort.W < 64 {
+			return e.b.Neg(e.b.ZExt(x.args[0].args[0], 64)), true
+		}
+	}
 	t, _, ok := e.asSignedBVw(x)
 	return t, ok
 }
